@@ -24,12 +24,30 @@ ASSUMPTIONS = [
 
 PROPS = {}
 
-PROPS['T0'] = dict(functions=ARITH + [GH + 'split_table', GH + 'remove_redundant_attrs'])
+VAL = 'py_stringsimjoin.utils.validation.'
+MVH = 'py_stringsimjoin.utils.missing_value_handler.get_pairs_with_missing_value'
+SSJ = 'py_stringsimjoin.join.set_sim_join.set_sim_join'
+HELPERS = [GH + x for x in ('remove_redundant_attrs', 'get_attrs_to_project', 'find_output_attribute_indices',
+                            'get_output_row_from_tables', 'get_output_header_from_tables')]
+VALIDATORS = [VAL + x for x in ('validate_input_table', 'validate_attr', 'validate_attr_type', 'validate_key_attr',
+                                'validate_output_attrs', 'validate_threshold', 'validate_tokenizer',
+                                'validate_tokenizer_for_sim_measure', 'validate_sim_measure_type',
+                                'validate_comp_op_for_sim_measure', 'validate_comp_op')]
+PANDAS = ('pandas (ASSUMED, pyvc/pandas_model.py): DataFrame abstraction (columns, rows, index, dtypes), df[name], '
+          'df[list], df[mask], dropna, itertuples, unique, isnull, DataFrame(rows, columns=), concat, set_index')
+PSM = ('py_stringmatching (ASSUMED, contracts/externals.py): tokenize is deterministic and duplicate-free in set mode; '
+       'get_raw_score returns simval_M(|A&B|, |A|, |B|) with the float formula of the installed version')
+LEMMA_INJ = ('lemma inj_image (pure mathematics, ASSUMED, not machine-checked yet): an injective rank map defined on all '
+             'tokens preserves set sizes and intersection sizes')
 
 PROPS['C17'] = dict(functions=['py_stringsimjoin.profiler.profiler.profile_table_for_join',
-                              'py_stringsimjoin.utils.validation.validate_input_table',
-                              'py_stringsimjoin.utils.validation.validate_attr'],
-                    trusted=['pandas (assumed, pyvc/pandas_model.py): Series.unique, pd.isnull, sum of a boolean Series, '
-                             'DataFrame(rows, columns=), set_index, df[name]',
-                             'str() and str.join are uninterpreted injective-free symbols; the percentage inside the '
-                             'formatted statistic is the value the code computes (round(x, 2) in the float model)'])
+                              VAL + 'validate_input_table', VAL + 'validate_attr'],
+                    trusted=[PANDAS, 'str() and str.join are uninterpreted symbols; the percentage inside the formatted '
+                             'statistic is the value the code computes (round(x, 2) in the float model)'])
+
+PROPS['C01'] = dict(functions=ARITH + [SSJ], trusted=[PSM, PANDAS, LEMMA_INJ])
+PROPS['C02'] = dict(functions=[SSJ] + HELPERS, trusted=[PSM, PANDAS, LEMMA_INJ])
+PROPS['C09'] = dict(functions=[SSJ], trusted=[PSM, PANDAS, LEMMA_INJ])
+PROPS['C11'] = dict(functions=HELPERS + [SSJ, MVH], trusted=[PANDAS])
+PROPS['C08'] = dict(functions=[MVH] + HELPERS, trusted=[PANDAS])
+PROPS['C15'] = dict(functions=VALIDATORS, trusted=[PANDAS])
